@@ -689,6 +689,8 @@ namespace detail {
             case token_kind::separator:
             case token_kind::current_node:
                 return 15;
+            case token_kind::lparen: // marks the start of a parenthesized expression in the output stack
+                return 15;
             case token_kind::pipe:
                 return 13;
             case token_kind::operation:
@@ -3804,6 +3806,7 @@ namespace detail {
                             {
                                 ++p_;
                                 ++column_;
+                                output_stack.push_back(token<Json>(lparen_arg));
                                 push_token(lparen_arg, resources, output_stack, ec);
                                 if (JSONCONS_UNLIKELY(ec)) {return jmespath_expression{};}
                                 state_stack.back() = expr_state::expect_rparen;
@@ -5396,6 +5399,31 @@ namespace detail {
                 case token_kind::rparen:
                     {
                         unwind_rparen(resources, output_stack, ec);
+                        if (JSONCONS_UNLIKELY(ec))
+                        {
+                            return;
+                        }
+                        // the parenthesized tokens (which may contain a pipe) become one expression
+                        std::vector<token<Json>> toks;
+                        auto it = output_stack.rbegin();
+                        while (it != output_stack.rend() && !(*it).is_lparen())
+                        {
+                            toks.emplace_back(std::move(*it));
+                            ++it;
+                        }
+                        if (it == output_stack.rend() || toks.empty())
+                        {
+                            ec = jmespath_errc::unbalanced_parentheses;
+                            return;
+                        }
+                        if (toks.back().type() != token_kind::literal)
+                        {
+                            toks.emplace_back(current_node_arg);
+                        }
+                        std::reverse(toks.begin(), toks.end());
+                        ++it;
+                        output_stack.erase(it.base(), output_stack.end());
+                        output_stack.push_back(token<Json>(resources.create_expression(function_expression(std::move(toks)))));
                         break;
                     }
                 case token_kind::end_function:
